@@ -87,6 +87,76 @@ def normal_line(st):
     return " ".join(toks)
 
 
+def status_stream(R, drv, rng, tier):
+    """"status shows the definition up-to-date right after commit and modified after any such edit": CLI histories
+    commit ; status ; <definition-only edit> ; status ; commit ; status  (no data changes in between), model and oracle"""
+    import s1, gen, s1eval
+    dud = vlib.build_dud()
+    cases = []
+    for i in range(24 if tier == "quick" else 300):
+        c = gen.pipeline_project(rng, "def-%d" % i, rng.choice([1, 2, 3]), tier="quick")
+        names = [sp for sp, st in c["stages"]]
+        ops = [("run", False, []), ("commit", rng.choice("lc"), []), ("status", [])]
+        for _ in range(rng.choice([1, 1, 2])):
+            k = rng.randrange(len(names))
+            cur = c["stages"][k][1]["cmd"]
+            for o_ in reversed(ops):
+                if o_[0] == "setcmd" and o_[1] == names[k]:
+                    cur = o_[2]
+                    break
+            toks = cur.split(b" ")
+            how = rng.choice(["word", "word", "inner-blank", "comment"])
+            if how == "word":
+                toks[1] = toks[1] + b"x"
+                new = b" ".join(toks)
+            elif how == "inner-blank":
+                j = rng.randrange(1, len(toks))
+                new = b" ".join(toks[:j]) + b"  " + b" ".join(toks[j:])
+            else:
+                new = cur + b" # note %d" % rng.randrange(100)
+            # the definition changes, no artifact does: commit must still record the new definition checksum
+            ops += [("setcmd", names[k], new), ("status", []), ("commit", rng.choice("lc"), [] if rng.random() < 0.6 else [names[k]]), ("status", [])]
+        c["ops"] = ops
+        cases.append(c)
+    runs, _ = s1.run_cases(dud, drv, cases)
+
+    def oracle(run):
+        v = []
+        steps = run["steps"]
+        names = [sp for sp, st in run["case"]["stages"]]
+        edited = set()
+        for k, st in enumerate(steps):
+            op = st["op"]
+            if op[0] == "setcmd":
+                edited.add(op[1])
+            elif op[0] == "commit" and st["rc"] == 0:
+                if not op[2]:
+                    edited = set()
+                else:
+                    edited -= set(op[2])          # (stages upstream of the target are committed too; they are not edited here unless listed)
+                    edited = set(e for e in edited)
+            elif op[0] == "status" and st["rc"] == 0:
+                shown = {}
+                for l in st["status"]:
+                    if l.startswith("t "):
+                        _, sp, d = l.split(" ", 2)
+                        shown[s1.unhx(sp)] = d
+                prev_commit = any(s["op"][0] == "commit" and s["rc"] == 0 for s in steps[:k])
+                if not prev_commit:
+                    continue
+                for sp in names:
+                    if sp in edited and shown.get(sp) == "up-to-date":
+                        v.append(("definition-edit-not-shown", "`dud status` shows the definition of %s up-to-date although its command was edited since the last commit (%s)" % (
+                            sp.decode(), [s1.op_text(o) for o in run["case"]["ops"][:k + 1]][-4:])))
+                    if sp not in edited and steps[k - 1]["op"][0] == "commit" and steps[k - 1]["rc"] == 0 and not steps[k - 1]["op"][2] \
+                            and shown.get(sp) != "up-to-date":
+                        v.append(("definition-stale-after-commit", "`dud status` right after a successful `dud commit` shows the definition of %s as %s (%s)" % (
+                            sp.decode(), shown.get(sp), [s1.op_text(o) for o in run["case"]["ops"][:k + 1]][-4:])))
+        return v
+    s1eval.evaluate(R, runs, oracle, None, lambda run: True)
+    R.cov["status_histories"] = len(cases)
+
+
 def main(tier, replay=None):
     R = vlib.Result(PROP, tier)
     R.cov["rule"] = ("S7 in-process: real Stage.ToFile -> stage.FromFile -> CalculateChecksum on generated valid stages: %d command strings and %d artifact "
@@ -182,6 +252,8 @@ def main(tier, replay=None):
         for d in diverged[:4]:
             R.violation(dict(kind="model-implementation-disagreement", stream="S7", **d), nofail=True)
     R.sample(stages[0]); R.sample(stages[1])
+    if not replay or "stages" not in json.load(open(replay)):
+        status_stream(R, drv, rng, tier)
     R.absorb_audit(vlib.lean_audit(PROP))
     if tier == "thorough":
         ok, log = vlib.leanchecker(["DudModel.Props.C17"])
